@@ -271,21 +271,31 @@ class Tokenizer(object):
 
             code = whichCode(token)
 
-            if code == CC_SUPER:
-
-                # Handle characters like ^^M, ^^@, etc.
+            # Handle characters like ^^M, ^^@, etc.  As in TeX, the
+            # notation needs a following character below 128, and the
+            # resulting character is examined again (it may itself be
+            # a superscript character that starts another ^^ sequence).
+            while code == CC_SUPER:
                 next_char = _read1()
 
                 if next_char != token:
                     self.pushChar(next_char)
+                    break
+
+                third_char = _read1()
+                if not third_char or ord(third_char) >= 128:
+                    # Not a ^^ sequence: two superscript characters
+                    if third_char:
+                        self.pushChar(third_char)
+                    self.pushChar(next_char)
+                    break
+
+                num = ord(third_char)
+                if num >= 64:
+                    token = chr(num-64)
                 else:
-                    next_char = _read1()
-                    num = ord(next_char)
-                    if num >= 64:
-                        token = chr(num-64)
-                    else:
-                        token = chr(num+64)
-                    code = whichCode(token)
+                    token = chr(num+64)
+                code = whichCode(token)
 
             # Just go to the next character if you see one of these...
             if code in (CC_IGNORED, CC_INVALID):
